@@ -40,12 +40,23 @@ func childC06(args []string) {
 	defer out.finish()
 	corpus := c06Corpus(tier, seed)
 	h := newSshHarness(8)
+	// second harness: nobody will ever receive a login and the context is
+	// already cancelled - the event must be produced all the same
+	hc := newSshHarness(0)
+	cctx, ccancel := context.WithCancel(context.Background())
+	ccancel()
 	ctx := context.Background()
 	for i := from; i < to && i < len(corpus); i++ {
 		c := corpus[i]
 		pid := pidTokens[i%len(pidTokens)]
 		out.begin(i, c.Msg)
-		o := h.observe(ctx, "direct", pid, c.Msg, "", false)
+		var o sshObs
+		if c.Accepted && i%8 == 3 {
+			o = hc.observe(cctx, "direct", pid, c.Msg, "", false)
+			out.add("accepted_lines_with_cancelled_context_and_unready_correlator", 1)
+		} else {
+			o = h.observe(ctx, "direct", pid, c.Msg, "", false)
+		}
 		out.add("lines", 1)
 		out.add("form:"+c.Form, 1)
 		out.class(c.Class)
@@ -86,6 +97,7 @@ func checkC06(r *vlib.Run) int {
 	}
 	r.Set("lines_per_form", forms)
 	r.Set("events_compared", res.stats["events_compared"])
+	r.Set("accepted_lines_with_cancelled_context_and_unready_correlator", res.stats["accepted_lines_with_cancelled_context_and_unready_correlator"])
 	r.Require(len(forms) == len(vlib.SshForms), "not every message form was exercised")
 	r.Require(res.stats["lines"] == n, fmt.Sprintf("children processed %d of %d lines", res.stats["lines"], n))
 	r.Assumptions = []string{"field values are drawn from the domains listed in the quantifier; values that make a message inherently ambiguous (e.g. an address containing ' port ') are not generated",
